@@ -98,7 +98,8 @@ Disarm(kind) ==
 ---------------------------------------------------------------------------
 \* What a call answers
 
-HeadFor(tag) == IF tag = "finalized" THEN final ELSE latest
+\* "safe" is answered like "finalized" (a safe head is at least the finalized one; the fake node answers the finalized head)
+HeadFor(tag) == IF tag \in {"finalized", "safe"} THEN final ELSE latest
 
 Fails(kind) == kind \in armed
 Consume(kind) == armed' = armed \ {kind}
